@@ -132,22 +132,22 @@ func startPCS(dir string, resp map[string]world.Resp) (*pcsNet, error) {
 
 // toolRun is one invocation of the check binary.
 type toolRun struct {
-	Class  string   `json:"class"`
-	Param  string   `json:"param"`
-	Args   []string `json:"args"`
-	Net    string   `json:"net"`    // "" (no proxy configured), name of a pcsNet, or "dead" (proxy nobody listens on)
-	Want   int      `json:"want"`   // expected exit code, -1 = not determined (only the implication applies)
-	Want2  int      `json:"want2"`  // alternative acceptable code (-1 none)
-	RefOK  bool     `json:"ref_ok"` // the reference says: verifies and meets the effective policy
-	Stdin  []byte   `json:"-"`
+	Class string   `json:"class"`
+	Param string   `json:"param"`
+	Args  []string `json:"args"`
+	Net   string   `json:"net"`    // "" (no proxy configured), name of a pcsNet, or "dead" (proxy nobody listens on)
+	Want  int      `json:"want"`   // expected exit code, -1 = not determined (only the implication applies)
+	Want2 int      `json:"want2"`  // alternative acceptable code (-1 none)
+	RefOK bool     `json:"ref_ok"` // the reference says: verifies and meets the effective policy
+	Stdin []byte   `json:"-"`
 	// StdinFile: standard input is this regular file, opened and positioned at StdinOff (what "tool <file" or a parent that
 	// already consumed a header gives); StdinSocket: it is one end of a socket pair the quote was written to (inetd style)
-	StdinFile   string `json:"stdin_file,omitempty"`
-	StdinOff    int64  `json:"stdin_off,omitempty"`
-	StdinSocket bool   `json:"stdin_socket,omitempty"`
-	Env    []string `json:"env,omitempty"` // extra environment of the tool process
-	Exit   int      `json:"exit"`
-	Stderr string   `json:"stderr"`
+	StdinFile   string   `json:"stdin_file,omitempty"`
+	StdinOff    int64    `json:"stdin_off,omitempty"`
+	StdinSocket bool     `json:"stdin_socket,omitempty"`
+	Env         []string `json:"env,omitempty"` // extra environment of the tool process
+	Exit        int      `json:"exit"`
+	Stderr      string   `json:"stderr"`
 }
 
 func crashed(stderr string, ps *os.ProcessState) string {
